@@ -323,13 +323,22 @@ class Walker(object):
         """True / False, or ('fork', key, polarity)."""
         if isinstance(t, ast.Constant):
             return bool(t.value)
+        def ctx_like(x):
+            # the context itself, or a local alias of it (`context =
+            # self.context`) kept as an expression
+            if self.is_ctx(x):
+                return True
+            if isinstance(x, ast.Name) and st is not None:
+                v = getattr(st, 'env', {}).get(x.id)
+                return v is not None and v[0] == 'expr' and self.is_ctx(v[1])
+            return False
         if isinstance(t, ast.Call) and isinstance(t.func, ast.Attribute) and \
                 t.func.attr.startswith('protocol_') and \
-                self.is_ctx(t.func.value):
+                ctx_like(t.func.value):
             args = [self.F.eval(a, self.fenv()) for a in t.args]
             fv = self.F.getattr(self.ctx, t.func.attr, t, self.fi.module)
             return bool(self.F.call(fv, args, {}, t, Env(self.fi.module)))
-        if self.is_ctx(t):
+        if ctx_like(t):
             return True
         if isinstance(t, ast.UnaryOp) and isinstance(t.op, ast.Not):
             c = self.cond(t.operand, st)
@@ -498,7 +507,7 @@ class Walker(object):
     def for_(self, n, st):
         it = n.iter
         items = None
-        if isinstance(it, ast.Tuple):
+        if isinstance(it, (ast.Tuple, ast.List)):
             items = list(it.elts)
         elif isinstance(it, ast.Constant) and isinstance(it.value, (tuple,
                                                                     str)):
@@ -587,6 +596,17 @@ class Walker(object):
             tv = self.type_value(val, st)
             if tv is not None:
                 st.env[tgt.id] = ('type', tv)
+                return [st]
+            def version_test(v):
+                try:
+                    return isinstance(self.cond(v, st), bool)
+                except AnalysisError:
+                    return False
+            if isinstance(val, ast.Call) and isinstance(
+                    val.func, ast.Attribute) and val.func.attr.startswith(
+                        'protocol_') and version_test(val):
+                # a version test kept in a local flag
+                st.env[tgt.id] = ('expr', val)
                 return [st]
             if isinstance(val, ast.Call):
                 # constructor call with token-bound locals: bind by parameter
